@@ -68,9 +68,17 @@ impl Generator {
         }
 
         let mut result = value;
+        #[cfg(pickle_fuzzer_verif)]
+        let mut verif_idx = 0usize;
         for mutator in &self.mutators {
+            #[cfg(pickle_fuzzer_verif)]
+            {
+                verif_idx += 1;
+            }
             if let Some(mutated) = mutator.mutate_int(result, source, self.mutation_rate) {
                 result = mutated;
+                #[cfg(pickle_fuzzer_verif)]
+                crate::verif::note_mutation("int", verif_idx - 1);
                 break; // Apply only one mutation
             }
         }
@@ -95,9 +103,17 @@ impl Generator {
         }
 
         let mut result = value;
+        #[cfg(pickle_fuzzer_verif)]
+        let mut verif_idx = 0usize;
         for mutator in &self.mutators {
+            #[cfg(pickle_fuzzer_verif)]
+            {
+                verif_idx += 1;
+            }
             if let Some(mutated) = mutator.mutate_long(result, source, self.mutation_rate) {
                 result = mutated;
+                #[cfg(pickle_fuzzer_verif)]
+                crate::verif::note_mutation("long", verif_idx - 1);
                 break;
             }
         }
@@ -121,9 +137,17 @@ impl Generator {
         }
 
         let mut result = value;
+        #[cfg(pickle_fuzzer_verif)]
+        let mut verif_idx = 0usize;
         for mutator in &self.mutators {
+            #[cfg(pickle_fuzzer_verif)]
+            {
+                verif_idx += 1;
+            }
             if let Some(mutated) = mutator.mutate_float(result, source, self.mutation_rate) {
                 result = mutated;
+                #[cfg(pickle_fuzzer_verif)]
+                crate::verif::note_mutation("float", verif_idx - 1);
                 break;
             }
         }
@@ -148,10 +172,18 @@ impl Generator {
         }
 
         let mut result = value;
+        #[cfg(pickle_fuzzer_verif)]
+        let mut verif_idx = 0usize;
         for mutator in &self.mutators {
+            #[cfg(pickle_fuzzer_verif)]
+            {
+                verif_idx += 1;
+            }
             if let Some(mutated) = mutator.mutate_string(result.clone(), source, self.mutation_rate)
             {
                 result = mutated;
+                #[cfg(pickle_fuzzer_verif)]
+                crate::verif::note_mutation("string", verif_idx - 1);
                 break;
             }
         }
@@ -176,10 +208,18 @@ impl Generator {
         }
 
         let mut result = value;
+        #[cfg(pickle_fuzzer_verif)]
+        let mut verif_idx = 0usize;
         for mutator in &self.mutators {
+            #[cfg(pickle_fuzzer_verif)]
+            {
+                verif_idx += 1;
+            }
             if let Some(mutated) = mutator.mutate_bytes(result.clone(), source, self.mutation_rate)
             {
                 result = mutated;
+                #[cfg(pickle_fuzzer_verif)]
+                crate::verif::note_mutation("bytes", verif_idx - 1);
                 break;
             }
         }
@@ -204,9 +244,17 @@ impl Generator {
         }
 
         let mut result = index;
+        #[cfg(pickle_fuzzer_verif)]
+        let mut verif_idx = 0usize;
         for mutator in &self.mutators {
+            #[cfg(pickle_fuzzer_verif)]
+            {
+                verif_idx += 1;
+            }
             if let Some(mutated) = mutator.mutate_memo_index(result, source, self.mutation_rate) {
                 result = mutated;
+                #[cfg(pickle_fuzzer_verif)]
+                crate::verif::note_mutation("memo", verif_idx - 1);
                 break;
             }
         }
@@ -275,8 +323,16 @@ impl Generator {
         }
 
         // Let each mutator post-process
+        #[cfg(not(pickle_fuzzer_verif))]
         for mutator in &self.mutators {
             mutator.post_process(&snapshot, &mut self.output, source, self.mutation_rate);
+        }
+        #[cfg(pickle_fuzzer_verif)]
+        for (verif_idx, mutator) in self.mutators.iter().enumerate() {
+            let before = self.output.clone();
+            let reported =
+                mutator.post_process(&snapshot, &mut self.output, source, self.mutation_rate);
+            crate::verif::note_rewrite(verif_idx, reported, before != self.output);
         }
     }
 }
